@@ -179,7 +179,7 @@ class B:
         'core::option::Option::<T>::take', 'core::option::Option::<&T>::cloned',
         'core::option::Option::<&T>::copied',
         'alloc::string::ToString::to_string',
-        'core::pin::Pin::<Ptr>::new', 'core::pin::Pin::<&'"'"'a mut T>::get_mut',
+        'core::pin::Pin::<Ptr>::new', 'core::pin::Pin::<&'"'"'a mut T>::get_mut', 'core::pin::Pin::<Ptr>::new_unchecked',
         'core::future::into_future::IntoFuture::into_future',
     )
 
@@ -247,6 +247,8 @@ class B:
             return base
         if base[0] == 'try' and projs[:2] == ('as:Continue', '0'):
             return B._with_projs(B._payload(base[1]), projs[2:])
+        if base[0] == 'awaited' and projs[:2] == ('as:Ready', '0'):
+            return B._with_projs(('awaited_value', base[1]), projs[2:])
         if base[0] in ('arg', 'local'):
             return (base[0], base[1], tuple(base[2]) + projs)
         if base[0] == 'call':
@@ -299,6 +301,9 @@ class B:
                 for n in (g, r):
                     if n and any(n == p or n.startswith(p) for p in self.PASS_THROUGH):
                         return self.origin(t['args'][0], depth + 1, through_calls)
+                if g == 'core::future::future::Future::poll':
+                    # `fut.await`: the Ready payload is the output of the future created by ...
+                    return ('awaited', self.origin(t['args'][0], depth + 1, through_calls))
                 if g == 'core::ops::try_trait::Try::branch':
                     # `x?`: the Continue payload is the Ok/Some payload of x
                     return ('try', self.origin(t['args'][0], depth + 1, through_calls))
@@ -422,6 +427,29 @@ class B:
         if rv['k'] != 'discr':
             return None
         return rv['pl'], rv['ty'], t['cases'], t['else']
+
+
+def unwrap(o):
+    """strip payload / try / awaited wrappers and collect the projections applied on the way:
+    returns (base origin, projections tuple)."""
+    projs = ()
+    for _ in range(40):
+        if o is None:
+            break
+        if o[0] in ('payload', 'try', 'awaited', 'awaited_value'):
+            o = o[1]
+            continue
+        if o[0] == 'proj':
+            projs = tuple(o[2]) + projs
+            o = o[1]
+            continue
+        break
+    if o is not None:
+        if o[0] in ('arg', 'local'):
+            projs = tuple(o[2]) + projs
+        elif o[0] == 'call':
+            projs = tuple(o[3]) + projs
+    return o, projs
 
 
 def strip_generics(path):
@@ -629,3 +657,31 @@ def snake(name):
 def camel_from_upper(name):
     """SEND_SENDER_TT -> SendSenderTt"""
     return ''.join(p[:1].upper() + p[1:].lower() for p in name.split('_'))
+
+
+ACCESSOR_SUFFIXES = ('::write', '::read', '::lock', '::entry', '::get_mut', '::get', '::iter', '::iter_mut', '::as_mut', '::as_ref',
+                     '::borrow_mut', '::borrow', '::unwrap', '::expect', '::value', '::value_mut', '::blocking_write', '::blocking_read', '::next', '::into_iter')
+
+
+def receiver_root(B, op, max_hops=12):
+    """Follow a method receiver back through guards/accessors (x.write().await, .lock(), .entry(k), .get(k) ...)
+    to the place it is rooted in.  Returns (base origin, projection names accumulated over all hops)."""
+    o = B.origin(op)
+    acc = ()
+    base = None
+    for _ in range(max_hops):
+        base, projs = unwrap(o)
+        acc = tuple(projs) + acc
+        if base is not None and base[0] == 'call' and base[1] and any(base[1].endswith(s) for s in ACCESSOR_SUFFIXES):
+            t = B.blocks[base[2]]['t']
+            if not t['args']:
+                return base, acc
+            o = B.origin(t['args'][0])
+            continue
+        return base, acc
+    return base, acc
+
+
+def root_fields(B, op):
+    base, projs = receiver_root(B, op)
+    return tuple(p for p in projs if isinstance(p, str))
